@@ -305,7 +305,10 @@ func c01Inorder(c *Ctx, a *avlAnchors) {
 				if edge == "true" {
 					want = []string{"rm(" + join(r0) + "," + nodeKey(valueT) + ")"}
 				}
-				if !seqEq(got, want) {
+				// on the flag-false edge the node-level result may be installed as well: node.remove's own obligation
+				// (removes-once) shows that a removal reporting false returns a tree with the sequence it was handed
+				unchangedByContract := edge == "false" && seqEq(got, []string{"rm(" + join(r0) + "," + nodeKey(valueT) + ")"})
+				if !seqEq(got, want) && !unchangedByContract {
 					ok, why = false, fmt.Sprintf("on path (%s) the tree reads %s afterwards, expected %s", p.CondString(), show(got), show(want))
 				}
 				if len(rec) == 0 && len(r0) != 0 {
